@@ -56,6 +56,7 @@ KS = [None, 1, -1, 2, 0.5, 3]
 EXACT_K = (None, 1, -1, 2, 0.5)
 CLASSES = ['Monitor', 'Monitor', 'Monitor', 'VerboseMonitor', 'LoggingMonitor', 'VerboseLoggingMonitor']
 MAXPOOL = 6
+MAXLEN = 48          # histories are kept short: repeated a+a / extend would double them every step
 SPECIALS = ['inf', '-inf', 'nan']
 POOLV = [0.0, -0.0, 1.0, -1.0, 0.1, -2.5, 3.0, 1e-300, -1e-300, 1e300, -1e300, 1e-7, 123456.789,
          0.30000000000000004, 2.0, 0.5]
@@ -329,6 +330,12 @@ def mon_fp(m):
     return (type(m).__name__, repr(m.k), m.label, fp(m._x), fp(m._y), fp(m._id), fp(m._info), extra)
 
 
+def _shares(a, b):
+    """two monitors use the same list object for their records (writing to one would write to the other;
+    combining them in place would never terminate)"""
+    return a._x is b._x or a._y is b._y or a._id is b._id
+
+
 def show(v):
     try:
         return repr(v)[:400]
@@ -556,6 +563,8 @@ class MonState(object):
                 if a == b:
                     ctx.exclude('self-%s (outside the domain: loops forever)' % kind); return
                 mb = self.pool[b]; modb = self.model[b]; before = mon_fp(mb)
+            if len(moda['recs']) + len(modb['recs']) > MAXLEN:
+                ctx.exclude('combined history longer than %d records (op skipped)' % MAXLEN); return
             getattr(ma, kind)(mb)
             moved = [_transfer(r, modb['k'], moda['k']) for r in modb['recs']]
             moda['recs'] = (moda['recs'] + moved) if kind == 'extend' else (moved + moda['recs'])
@@ -575,6 +584,8 @@ class MonState(object):
                 ctx.label('null-argument')
             else:
                 mb = self.pool[b]; modb = self.model[b]
+            if len(moda['recs']) + len(modb['recs']) > MAXLEN:
+                ctx.exclude('combined history longer than %d records (op skipped)' % MAXLEN); return
             fa = mon_fp(ma); fb = None if b is None else mon_fp(mb)
             res = ma + mb
             self._unchanged('C20.source_unchanged', 'add', a, ma, fa)
@@ -582,7 +593,8 @@ class MonState(object):
                 self._unchanged('C20.arg_unchanged', 'add', b, mb, fb)
             rk = res.k
             want = list(moda['recs']) + [_transfer(r, modb['k'], rk) for r in modb['recs']]
-            ctx.expect(res is not ma and res is not mb, 'C20.result', lambda: dict(where='add', note='result is an operand'))
+            ctx.expect(res is not ma and res is not mb and not _shares(res, ma) and (b is None or not _shares(res, mb)),
+                       'C20.result', lambda: dict(where='add', note='result is, or shares its record lists with, an operand'))
             self.check_monitor(res, want, 'add(%s,%s)' % (a, b), 'result')
             self._keep(res, want, rk)
             if modb['recs'] and moda['recs']:
@@ -610,7 +622,8 @@ class MonState(object):
             res = m[sl]
             want = mod['recs'][sl]
             self._unchanged('C20.source_unchanged', 'm[i:j]', mi, m, f0)
-            ctx.expect(res is not m, 'C20.result', lambda: dict(where='slice', note='result is the source'))
+            ctx.expect(res is not m and not _shares(res, m), 'C20.result',
+                       lambda: dict(where='slice', note='result is, or shares its record lists with, the source'))
             self.check_monitor(res, want, 'slice(%s,%s)' % (mi, op[2:]), 'result')
             self._keep(res, want, res.k)
             self.opkinds.add('slice')
@@ -626,6 +639,8 @@ class MonState(object):
             res = m[np.array(idx) if form == 'array' else list(idx)]
             want = [mod['recs'][i] for i in idx]
             self._unchanged('C20.source_unchanged', 'm[[...]]', mi, m, f0)
+            ctx.expect(res is not m and not _shares(res, m), 'C20.result',
+                       lambda: dict(where='take', note='result is, or shares its record lists with, the source'))
             self.check_monitor(res, want, 'take(%s,%s)' % (mi, idx), 'result')
             self._keep(res, want, res.k)
             self.opkinds.add('take')
@@ -724,7 +739,7 @@ def machine_factory(tier, Base):
             if data.draw(st.integers(0, 11)) == 0:
                 b = None
             else:
-                b = self.pick(data, s, lambda i: i != a)
+                b = self.pick(data, s, lambda i: i != a and len(s.model[i]['recs']) + len(s.model[a]['recs']) <= MAXLEN)
                 if b is None: return
             self.do([kind, a, b])
 
@@ -733,7 +748,11 @@ def machine_factory(tier, Base):
             s = self.live()
             if s is None: return
             a = self.pick(data, s)
-            b = None if data.draw(st.integers(0, 11)) == 0 else self.pick(data, s)
+            if data.draw(st.integers(0, 11)) == 0:
+                b = None
+            else:
+                b = self.pick(data, s, lambda i: len(s.model[i]['recs']) + len(s.model[a]['recs']) <= MAXLEN)
+                if b is None: return
             self.do(['add', a, b])
 
         @rule(data=st.data(), form=st.sampled_from(['int', 'int', 'npint']))
@@ -1079,11 +1098,11 @@ def run_files(case, ctx):
 # --------------------------------------------------------------------------- tests
 TESTS = [
     Test('machine', _run_machine, machine=machine_factory,
-         examples={'quick': 2000, 'thorough': 50000}, steps={'quick': 16, 'thorough': 40}),
+         examples={'quick': 1800, 'thorough': 50000}, steps={'quick': 16, 'thorough': 40}),
     Test('log', run_log, strategy=lambda tier: log_cases(tier),
-         examples={'quick': 2400, 'thorough': 80000}),
+         examples={'quick': 2000, 'thorough': 80000}),
     Test('files', run_files, strategy=lambda tier: file_cases(tier),
-         examples={'quick': 2400, 'thorough': 80000}),
+         examples={'quick': 2000, 'thorough': 80000}),
 ]
 
 
